@@ -23,6 +23,19 @@ def main():
         runners.update(m.RUNNERS)
     if a.replay:
         payload = json.load(open(a.replay)) if not a.replay.lstrip().startswith('{') else json.loads(a.replay)
+        if payload.get('history'):
+            # the failing evaluation together with everything the same deterministic run evaluated before it
+            h = payload['history']
+            R = base.Run(h['prop'], h['tier'], h['seed'])
+            R.stop_at = h['ordinal']
+            try:
+                runners[h['prop']](R)
+                out = {'check': payload['check'], 'detail': None, 'finding': None, 'note': 'run ended before the evaluation'}
+            except base.StopRun as e:
+                out = {'check': e.outcome['check'], 'detail': e.outcome['detail'], 'finding': None,
+                       'same_input': e.outcome['args'] == payload['args']}
+            print(json.dumps(out))
+            return 0 if out['detail'] in (None, 'SKIP') else 1
         fn = base.CHECKS[payload['check']]
         args = base.des(payload['args'])
         try:
